@@ -154,9 +154,65 @@ func randSrtLine(r *rng, styled bool, colors []string) []srtRun {
 	return out
 }
 
+var srtColors = []string{"#ff0000", "red", "#00FF7f", "rgb(1, 2, 3)", "yellow"}
+
+// colours on the boundary of the markup tokenizer model's faithful domain (Kit.Html.html_simple): the writer puts a
+// colour between the quotes unescaped, the reader's HTML tokenizer unescapes character references inside attribute
+// values ("&amp;" comes back as "&").  Such colours are not font-colour markup in the sense of the property's
+// quantifier; the theorems exclude them (col_ok) and the suites use them only for the comparison of result classes.
+var srtColorsAmp = []string{"&amp;", "a&b", "&lt;", "#ff&#48;000"}
+
 func randSrtCues(r *rng, maxCues int, styled bool) []srtCue {
+	return randSrtCuesWith(r, maxCues, styled, srtColors)
+}
+
+// used by the C01 suites only: for one cue list in eight, one colour in six is taken from srtColorsAmp
+func randSrtCuesDomain(r *rng, maxCues int, styled bool) []srtCue {
+	if !r.chance(1, 8) {
+		return randSrtCuesWith(r, maxCues, styled, srtColors)
+	}
+	return randSrtCuesWith(r, maxCues, styled, append(append([]string{}, srtColors...), srtColorsAmp[r.intn(len(srtColorsAmp))]))
+}
+
+// a colour with '&' or a double quote: outside the faithful domain of the tokenizer model
+func srtCuesColourAmp(cues []srtCue) bool {
+	for _, c := range cues {
+		for _, l := range c.Lines {
+			for _, ru := range l {
+				if strings.ContainsAny(ru.St.Color, "&\"") {
+					return true
+				}
+			}
+		}
+	}
+	return false
+}
+
+// raw-text elements of the HTML tokenizer (everything up to the matching end tag is text): never font-colour or
+// emphasis markup of a SubRip cue; outside the faithful domain of the tokenizer model
+var srtRawTextLines = []string{"<script>x<b>y", "<title>t", "<style>s</style>", "a<textarea>q<i>w", "<SCRIPT>1</script><u>2", "<xmp><b>", "<i>k<noscript>z</i>"}
+
+// inserts one raw-text line as the first text line of a randomly chosen cue of a rendered document
+func injectRawTextLine(r *rng, doc, eol string) (string, bool) {
+	ls := strings.Split(doc, eol)
+	var at []int
+	for i, l := range ls {
+		if strings.Contains(l, "-->") {
+			at = append(at, i)
+		}
+	}
+	if len(at) == 0 {
+		return doc, false
+	}
+	k := at[r.intn(len(at))]
+	out := append([]string{}, ls[:k+1]...)
+	out = append(out, srtRawTextLines[r.intn(len(srtRawTextLines))])
+	out = append(out, ls[k+1:]...)
+	return strings.Join(out, eol), true
+}
+
+func randSrtCuesWith(r *rng, maxCues int, styled bool, colors []string) []srtCue {
 	n := r.intn(maxCues + 1)
-	colors := []string{"#ff0000", "red", "#00FF7f", "rgb(1, 2, 3)", "yellow"}
 	var cues []srtCue
 	var t int64
 	for i := 0; i < n; i++ {
@@ -592,17 +648,31 @@ func srtReadObs(doc string, want []srtCue, group string, human map[string]interf
 }
 
 func suiteSrt(R *runner, r *rng) {
-	R.rule("srt: ground-truth cue lists (0..6 cues, times below 100 h at 1 ms, 1..3 lines, 1..3 styled runs over a Unicode palette incl. & < nbsp, combining marks, non-BMP) x renderings (EOL LF/CRLF/CR, BOM, index present/absent/garbage, 1..3 blank lines between cues, 0..3 at EOF, ',' or '.', 1-3 fraction digits, spacing around -->, trailing coordinates, tags closed per run / left open / spanning lines, upper-case tags, quoting styles); reader vs ground truth (oracle) and vs the Coq model; writer bytes vs the Coq model, decoded by the independent decoder and by the reader; line-level parseTextSrt vs the model on hostile markup; non-trivial = at least one cue")
+	R.rule("srt: ground-truth cue lists (0..6 cues, times below 100 h at 1 ms, 1..3 lines, 1..3 styled runs over a Unicode palette incl. & < nbsp, combining marks, non-BMP) x renderings (EOL LF/CRLF/CR, BOM, index present/absent/garbage, 1..3 blank lines between cues, 0..3 at EOF, ',' or '.', 1-3 fraction digits, spacing around -->, trailing coordinates, tags closed per run / left open / spanning lines, upper-case tags, quoting styles); reader vs ground truth (oracle) and vs the Coq model; writer bytes vs the Coq model, decoded by the independent decoder and by the reader; line-level parseTextSrt vs the model on hostile markup; boundary of the tokenizer model's faithful domain (colours with '&', raw-text elements script/title/style/...: result class only, no ground-truth oracle; counters srt.domain.*); non-trivial = at least one cue")
 	N := 1200
 	if R.tier == "thorough" {
 		N = 25000
 	}
 	// reader
 	for c := 0; c < N; c++ {
-		cues := randSrtCues(r, 6, c%3 != 0)
+		cues := randSrtCuesDomain(r, 6, c%3 != 0)
 		doc, rd := renderSrt(r, cues)
+		// Boundary of the faithful domain.  A colour with '&' and a raw-text element line are not markup the property
+		// quantifies over (the ground truth of such a document is not defined by the property): no ground-truth oracle,
+		// and the model comparison is by result class only (the driver answers NS because html_simple fails).
+		want := cues
+		if srtCuesColourAmp(cues) {
+			want = nil
+			R.count("srt.domain.colour_amp")
+		}
+		if r.chance(1, 20) {
+			if d, ok := injectRawTextLine(r, doc, rd.EOL); ok {
+				doc, want = d, nil
+				R.count("srt.domain.raw_text_tag")
+			}
+		}
 		h := map[string]interface{}{"doc": doc, "eol": rd.EOL, "bom": rd.BOM, "eof_blank_lines": rd.EOFBlanks, "cues": len(cues)}
-		o := srtReadObs(doc, cues, "srt.read", h)
+		o := srtReadObs(doc, want, "srt.read", h)
 		if o.Sig == "srt-read-value" && rd.EOFBlanks > 0 {
 			// is the only difference the trailing blank lines of the last cue?
 			o.Sig = "srt-read-value-eof-blanks"
@@ -708,9 +778,16 @@ func suiteSrt(R *runner, r *rng) {
 
 	// writer
 	for c := 0; c < N; c++ {
-		cues := randSrtCues(r, 6, c%3 != 0)
+		cues := randSrtCuesDomain(r, 6, c%3 != 0)
 		s := subsFromCues(cues)
 		withPos := r.chance(1, 10) && len(s.Items) > 0
+		// a colour with '&': the bytes are still compared with the model (the writer model has no domain restriction), but
+		// the decoding oracles are restricted to colours that are font-colour markup (no '&', no double quote): the
+		// written attribute value is not escaped, so what such a document denotes is not defined by the property
+		colourAmp := srtCuesColourAmp(cues)
+		if colourAmp {
+			R.count("srt.domain.colour_amp")
+		}
 		if withPos {
 			for _, it := range s.Items {
 				for li := range it.Lines {
@@ -739,7 +816,7 @@ func suiteSrt(R *runner, r *rng) {
 		default:
 			o.Impl = (&enc{}).n(0).bytes(buf.Bytes()).String()
 			o.Human.(map[string]interface{})["written"] = buf.String()
-			if !withPos {
+			if !withPos && !colourAmp {
 				dec, derr := decodeSrt(buf.Bytes())
 				if derr != nil {
 					o.Oracle, o.Sig = "independent decoder rejects the writer's output: "+derr.Error(), "srt-write-decoder"
@@ -757,13 +834,30 @@ func suiteSrt(R *runner, r *rng) {
 
 	// line level: parseTextSrt on hostile markup, against the model
 	frag := []string{"<b>", "</b>", "<i>", "</i>", "<u>", "</u>", "<B>", "<font color=\"#fff\">", "<font color='a b'>", "<font color=red>", "<FONT COLOR=\"x\">", "</font>", "<font>", "<font size=3 color=blue>", "text", " ", "a&amp;b", "&lt;", "&nbsp;", "&", "<", ">", "<3", "a<b", "</", "</>", "</ x>", "<!--c-->", "<?x?>", "<br/>", "<b/>", "<b", "<font color=", "<font color=\"", "<x y='>'>", "<a href=x>", " ", "é", "😀", "<i >", "< i>", "<i\t>", "<u/ >", "<b =>", "<b = >", "<b a=>", "<i a b=c d='e' f=\"g\">"}
+	// boundary of the faithful domain (one line in six gets one of these): raw-text elements, character references and CR
+	// inside attribute values
+	fragDomain := []string{"<script>", "</script>", "<title>", "<style>", "</style>", "<textarea>", "<font color=\"&amp;\">", "<font color='a&b'>", "<font color=\"a\rb\">"}
+	reRawText := regexp.MustCompile(`(?i)<(script|style|title|textarea|xmp|iframe|noembed|noframes|noscript|plaintext)\b`)
 	for c := 0; c < N*2; c++ {
 		n := 1 + r.intn(6)
 		var b strings.Builder
+		dom := -1
+		if r.chance(1, 6) {
+			dom = r.intn(n)
+		}
 		for k := 0; k < n; k++ {
+			if k == dom {
+				b.WriteString(fragDomain[r.intn(len(fragDomain))])
+			}
 			b.WriteString(frag[r.intn(len(frag))])
 		}
 		line := b.String()
+		if reRawText.MatchString(line) {
+			R.count("srt.domain.raw_text_tag")
+		}
+		if strings.Contains(line, "&amp;\">") || strings.Contains(line, "a&b'>") {
+			R.count("srt.domain.colour_amp")
+		}
 		b0, i0, u0 := r.chance(1, 4), r.chance(1, 4), r.chance(1, 4)
 		var col *string
 		if r.chance(1, 4) {
